@@ -352,7 +352,8 @@ fn o17_1_active_limit_refuses_syn() {
 
 // ---- C18 ------------------------------------------------------------------------------------
 
-fn amplification_step(start_pending: bool, k: u8) {
+fn amplification_step(start_pending: bool, k: u8) { amplification_step_at(start_pending, k, None) }
+fn amplification_step_at(start_pending: bool, k: u8, fixed_t: Option<u64>) {
     // untracked address: configuration limits symbolic (the SYN under test explores every refusal);
     // pending address: default configuration and a SYN compatible by construction, so that the entry exists on
     // every path (the first SYN's own replies are the subject of the untracked shape)
@@ -368,7 +369,8 @@ fn amplification_step(start_pending: bool, k: u8) {
     let left0: usize = if start_pending { 10 } else { 0 };
     let phi0 = recv as isize - s.socket.sent_bytes() as isize - 25 * left0 as isize;
     if start_pending { assert!(phi0 >= 1472 - 25 - 250, "[C18] replies to a first SYN stay far below its size, resends included"); }
-    let t = any_time();
+    // the time of the step is symbolic except in the timer shapes, where it decides a heap-modifying branch (DESIGN.md 10.8)
+    let t = match fixed_t { Some(x) => x, None => any_time() };
     let sent0 = s.socket.sent_bytes();
     let got: usize = match k {
         0 => { s.handle_frame(addr(A), frame::Frame::HandshakeSynFrame(any_syn(false, &cfg)), t); 1472 }
@@ -428,11 +430,29 @@ amp!(o18_1_pending_repeated_syn, true, 0);
 //@bound address A pending; a handshake ACK with ANY wrong nonce
 //@assume as o18_1_untracked_syn
 amp!(o18_1_pending_wrong_ack, true, 2);
+macro_rules! amp_at {
+    ($name:ident, $t:expr) => {
+        #[kani::proof]
+        #[kani::unwind(6)]
+        #[kani::stub(crate::frame::serial::crc::compute, crate::frame::serial::verif_codec::crc_stub)]
+        fn $name() { amplification_step_at(true, 9, Some($t)); }
+    };
+}
 //@h props=C18 tier=quick timeout=1500 role=server-amplification args=--no-memory-safety-checks
 //@fn Server::{handle_events, handle_event}
-//@bound address A pending; ONE timer evaluation at any time < 2^40
-//@assume as o18_1_untracked_syn
-amp!(o18_1_pending_timer, true, 9);
+//@bound address A pending (SYN handled at time 0, first resend due at 2000 ms); ONE timer evaluation at 1999 ms (nothing due)
+//@assume as o18_1_untracked_syn; the evaluation time is a concrete shape because it decides a heap-modifying branch
+amp_at!(o18_1_pending_timer_not_due, 1999);
+//@h props=C18 tier=quick timeout=1500 role=server-amplification args=--no-memory-safety-checks
+//@fn Server::{handle_events, handle_event}
+//@bound address A pending; ONE timer evaluation at exactly 2000 ms (the resend is due)
+//@assume as o18_1_pending_timer_not_due
+amp_at!(o18_1_pending_timer_due, 2000);
+//@h props=C18 tier=thorough timeout=1500 role=server-amplification args=--no-memory-safety-checks
+//@fn Server::{handle_events, handle_event}
+//@bound address A pending; ONE timer evaluation at 2^39 ms (long overdue: still one resend per evaluation)
+//@assume as o18_1_pending_timer_not_due
+amp_at!(o18_1_pending_timer_overdue, 1 << 39);
 //@h props=C18 tier=thorough timeout=1500 role=server-amplification args=--no-memory-safety-checks
 //@fn Server::handle_frame (stray frame types)
 //@bound address A pending; a Disconnect frame
